@@ -642,8 +642,8 @@ type c05WireCase struct {
 	// with that cause — or, if an implementation chooses to retry, the RTT must still be measured from
 	// the instant the probe was really handed to the network.
 	EnobufsAt int
-	Replies  map[int][]c05Reply
-	DestAt   int // 0 = the destination never answers
+	Replies   map[int][]c05Reply
+	DestAt    int // 0 = the destination never answers
 }
 
 type c05WireObs struct {
